@@ -28,17 +28,17 @@ fn run_case(mask: usize) -> Result<(), String> {
         queues.push(q);
         // one thread per job, in order, so that thread i runs job i
         let t0 = Instant::now();
-        while running.load(Ordering::SeqCst) <= i && t0.elapsed() < Duration::from_secs(2) { thread::sleep(Duration::from_millis(2)); }
+        while running.load(Ordering::SeqCst) <= i && t0.elapsed() < desync_replay::secs(2) { thread::sleep(desync_replay::ms(2)); }
     }
     { *boom.0.lock().unwrap() = true; boom.1.notify_all(); }
-    thread::sleep(Duration::from_millis(300));           // let the doomed threads finish unwinding
+    thread::sleep(desync_replay::ms(300));           // let the doomed threads finish unwinding
 
     // scheduling on a fresh object must not wait for the live (blocked) threads and must get a thread (pool is below its maximum)
     let ran = Arc::new(AtomicUsize::new(0));
     let (s2, r2) = (sched.clone(), ran.clone());
     let caller = thread::spawn(move || { let q = s2.create_job_queue(); s2.desync(&q, move || { r2.fetch_add(1, Ordering::SeqCst); }); });
     let t0 = Instant::now();
-    while ran.load(Ordering::SeqCst) == 0 && t0.elapsed() < Duration::from_secs(3) { thread::sleep(Duration::from_millis(10)); }
+    while ran.load(Ordering::SeqCst) == 0 && t0.elapsed() < desync_replay::secs(3) { thread::sleep(desync_replay::ms(10)); }
     let ok = ran.load(Ordering::SeqCst) == 1;
     let dbg = { let s3 = sched.clone(); std::panic::catch_unwind(std::panic::AssertUnwindSafe(move || format!("{:?}", s3))).unwrap_or_else(|_| "scheduler locks poisoned".to_string()) };
     { *gate.0.lock().unwrap() = true; gate.1.notify_all(); }
